@@ -23,6 +23,7 @@ import (
 )
 
 var out *bufio.Writer
+var debug = os.Getenv("KV_DEBUG") != ""
 
 func main() {
 	if len(os.Args) < 2 {
@@ -186,6 +187,7 @@ type hstate struct {
 	opts  klevdb.Options
 	keys  bool
 	times bool
+	dead  bool
 }
 
 func workRoot() string {
@@ -242,7 +244,7 @@ func runHist(path string) {
 	n := 0
 	finish := func() {
 		if st != nil {
-			if st.log != nil {
+			if st.log != nil && !st.dead {
 				_ = st.log.Close()
 			}
 			os.RemoveAll(st.dir)
@@ -265,12 +267,33 @@ func runHist(path string) {
 			continue
 		}
 		fmt.Fprintln(out, line)
-		res := safeStep(st, f)
+		res := guardedStep(st, f)
 		for _, r := range res {
 			fmt.Fprintln(out, "=", r)
 		}
+		if debug {
+			out.Flush()
+		}
 	}
 	finish()
+}
+
+// guardedStep runs one op with a watchdog: a call that never returns (e.g. a lock left held by
+// an earlier panic) is reported as Hang and the rest of the case is skipped.
+func guardedStep(st *hstate, f []string) []string {
+	if st.dead {
+		return []string{"err Hang"}
+	}
+	ch := make(chan []string, 1)
+	go func() { ch <- safeStep(st, f) }()
+	select {
+	case r := <-ch:
+		return r
+	case <-time.After(20 * time.Second):
+		st.dead = true
+		st.log = nil
+		return []string{"err Hang"}
+	}
 }
 
 func safeStep(st *hstate, f []string) (res []string) {
@@ -310,10 +333,25 @@ func listSegs(dir string) []segment.Segment {
 	return segs
 }
 
+var needsLog = map[string]bool{"close": true, "pub": true, "next": true, "sync": true, "gc": true, "stat": true,
+	"cons": true, "consk": true, "get": true, "getk": true, "gett": true, "offk": true, "offt": true, "del": true,
+	"delm": true, "size": true, "findo": true, "findc": true, "finds": true, "finda": true, "fupd": true, "fdel": true,
+	"trimo": true, "trimc": true, "trims": true, "trima": true, "cupd": true, "cdel": true, "trim1o": true,
+	"trim1c": true, "trim1s": true, "trim1a": true, "c1upd": true, "c1del": true, "backup": true, "probe": true}
+
 func step(st *hstate, f []string) []string {
 	l := st.log
+	if l == nil && needsLog[f[0]] {
+		if f[0] == "probe" {
+			return nil
+		}
+		return []string{"err Closed"}
+	}
 	switch f[0] {
 	case "open":
+		if l != nil {
+			return []string{"err Locked"}
+		}
 		o := parseOpen(f)
 		st.keys, st.times = o.KeyIndex, o.TimeIndex
 		lg, err := klevdb.Open(st.dir, o)
@@ -722,7 +760,11 @@ func listFiles(dir string, opts []string) string {
 		if i := strings.Index(name, ".rewrite."); i >= 0 {
 			name = name[:i] + ".rewrite.X"
 		}
-		fmt.Fprintf(&sb, " %s:%d", strings.TrimLeft(name, "0"), fi.Size())
+		short := strings.TrimLeft(name, "0")
+		if short == "" || short[0] == '.' {
+			short = "0" + short
+		}
+		fmt.Fprintf(&sb, " %s:%d", short, fi.Size())
 		if strings.HasSuffix(name, ".log") || strings.HasSuffix(name, ".index") {
 			var h [8]byte
 			fh, err := os.Open(filepath.Join(dir, en.Name()))
